@@ -18,6 +18,7 @@ type modLoc struct {
 	lo, hi Term // [lo,hi) cell offsets; ignored when whole
 	whole  bool
 	single bool // hi == lo+1
+	cond   Term // the location may change only if this entry-state condition holds
 	ty     types.Type // type of a single cell (for the type invariant of its new value)
 }
 
@@ -216,6 +217,7 @@ func instrOf(v ssa.Value, f *frame) ssa.Instruction {
 func (vc *VC) evalMods(sp *spec.FuncSpec, env *Env) ([]modLoc, error) {
 	tt := vc.tt
 	var out []modLoc
+	curCond := True // entry-state condition of the modifies entry being expanded
 	addLoc := func(l *Loc) {
 		// expand scalar cells of the location's type
 		var walk func(t types.Type, off Term)
@@ -230,15 +232,26 @@ func (vc *VC) evalMods(sp *spec.FuncSpec, env *Env) ([]modLoc, error) {
 				tt.kinds(u.Elem(), acc)
 				n := u.Len() * tt.cells(u.Elem())
 				for k := range acc {
-					out = append(out, modLoc{key: k, obj: l.Obj, lo: off, hi: Add(off, IntLit(n))})
+					out = append(out, modLoc{cond: curCond, key: k, obj: l.Obj, lo: off, hi: Add(off, IntLit(n))})
 				}
 			default:
-				out = append(out, modLoc{key: tt.kind(t), obj: l.Obj, lo: off, hi: Add(off, IntLit(1)), single: true, ty: t})
+				out = append(out, modLoc{cond: curCond, key: tt.kind(t), obj: l.Obj, lo: off, hi: Add(off, IntLit(1)), single: true, ty: t})
 			}
 		}
 		walk(l.Ty, l.Off)
 	}
 	for i, m := range sp.Modifies {
+		curCond = True
+		if i < len(sp.ModCond) && sp.ModCond[i] != nil {
+			c, err := env.evalBool(sp.ModCond[i])
+			if err != nil {
+				return nil, fmt.Errorf("modifies %s: %v", sp.ModSrc[i], err)
+			}
+			if c.S == "false" {
+				continue // can never apply (e.g. a dynamic type that is not part of the loaded program)
+			}
+			curCond = vc.define("modcond", c)
+		}
 		switch n := m.(type) {
 		case *spec.SliceE:
 			sv, err := env.eval(n)
@@ -253,7 +266,7 @@ func (vc *VC) evalMods(sp *spec.FuncSpec, env *Env) ([]modLoc, error) {
 			acc := map[string]bool{}
 			tt.kinds(st.Elem(), acc)
 			for k := range acc {
-				out = append(out, modLoc{key: k, obj: SObj(sv.T), lo: SOff(sv.T), hi: Add(SOff(sv.T), Mul(SLen(sv.T), IntLit(c)))})
+				out = append(out, modLoc{cond: curCond, key: k, obj: SObj(sv.T), lo: SOff(sv.T), hi: Add(SOff(sv.T), Mul(SLen(sv.T), IntLit(c)))})
 			}
 		case *spec.Call:
 			if n.Fun == "obj" || n.Fun == "whole" {
@@ -269,7 +282,7 @@ func (vc *VC) evalMods(sp *spec.FuncSpec, env *Env) ([]modLoc, error) {
 					et, _ = derefType(sv.Ty)
 					if mt, ok := sv.Ty.Underlying().(*types.Map); ok {
 						for _, k := range vc.mapKeys(mt) {
-							out = append(out, modLoc{key: k, obj: obj, whole: true})
+							out = append(out, modLoc{cond: curCond, key: k, obj: obj, whole: true})
 						}
 						continue
 					}
@@ -284,7 +297,7 @@ func (vc *VC) evalMods(sp *spec.FuncSpec, env *Env) ([]modLoc, error) {
 					tt.kinds(et, acc)
 				}
 				for k := range acc {
-					out = append(out, modLoc{key: k, obj: obj, whole: true})
+					out = append(out, modLoc{cond: curCond, key: k, obj: obj, whole: true})
 				}
 				continue
 			}
@@ -297,7 +310,7 @@ func (vc *VC) evalMods(sp *spec.FuncSpec, env *Env) ([]modLoc, error) {
 			if sv.Ty != nil {
 				if mt, ok := sv.Ty.Underlying().(*types.Map); ok && sv.Loc == nil {
 					for _, k := range vc.mapKeys(mt) {
-						out = append(out, modLoc{key: k, obj: PObj(sv.T), whole: true})
+						out = append(out, modLoc{cond: curCond, key: k, obj: PObj(sv.T), whole: true})
 					}
 					continue
 				}
@@ -383,7 +396,9 @@ func (vc *VC) modKeysOf(sp *spec.FuncSpec, callee *ssa.Function, cm *ssa.CallCom
 func (vc *VC) havocMods(st *State, mods []modLoc) (wfs []func()) {
 	for _, m := range mods {
 		m := m
-		h := vc.heap(st, m.key)
+		before := vc.heap(st, m.key)
+		conditional := m.cond.S != "true" && m.cond.S != ""
+		h := before
 		inner := arrayElemSort(h.Sort)
 		switch {
 		case m.whole:
@@ -404,6 +419,10 @@ func (vc *VC) havocMods(st *State, mods []modLoc) (wfs []func()) {
 			body := Implies(Or(Lt(jt, m.lo), Ge(jt, m.hi)), Eq(Select(fr, jt), Select(old, jt)))
 			vc.cmd(fmt.Sprintf("(assert (forall ((%s Int)) (! %s :pattern ((select %s %s)))))", j, body.S, fr.S, j))
 			vc.setHeap(st, m.key, Store(h, m.obj, fr))
+		}
+		if conditional {
+			// the location changes only under m.cond: keep the old heap otherwise
+			vc.setHeap(st, m.key, Ite(m.cond, vc.heap(st, m.key), before))
 		}
 	}
 	return wfs
